@@ -1,6 +1,6 @@
 """Sidecar contracts for /repo/bisturi (never edits the repository)."""
 
-ALL_MODULES = ['c_fragments', 'c_structural', 'c_field', 'c_packet', 'c_descriptor', 'c_purity', 'c_deferred', 'c_roundtrip', 'c_codegen']
+ALL_MODULES = ['c_fragments', 'c_structural', 'c_field', 'c_packet', 'c_descriptor', 'c_purity', 'c_deferred', 'c_roundtrip', 'c_codegen', 'c_regexp']
 
 _COMMON_TRUST = [
     'builtin/library contracts of DESIGN.md 2.5-2.6 (assumed; cross-checked against CPython by pyvc/crosscheck.py, bounded)',
@@ -27,7 +27,9 @@ _FRAME_FUNCS = ['field:Int._unpack_fixed_and_primitive_size', 'field:Int._unpack
                 'packet:Packet.unpack', 'packet:Packet.pack', 'packet:Packet.__eq__', 'packet:Packet.__repr__',
                 'descriptor:Auto.__get__', 'descriptor:Auto.sync_before_pack',
                 'packet:Prototype.__init__', 'packet:Prototype._clone_from_pickle', 'packet:Prototype._clone_from_live_obj',
-                'C13#field:Ref._unpack_using_callable', 'field:Ref._pack_with_callable', 'field:Ref.init']
+                'C13#field:Ref._unpack_using_callable', 'field:Ref._pack_with_callable', 'field:Ref.init',
+                # evaluating a compiled expression must not keep state between calls (scratch stack is per call)
+                'deferred:exec_compiled_expr']
 
 _RT1 = ['ghost_clients:rt1_int_prim', 'ghost_clients:rt1_int_any', 'ghost_clients:rt1_data_fixed', 'ghost_clients:rt1_data_field',
         'ghost_clients:rt1_data_callable', 'ghost_clients:rt1_data_marker', 'ghost_clients:rt1_data_regex',
@@ -76,6 +78,26 @@ PROPERTIES = {
                      'relative positioning: Move.unpack depends on offset and innermost-pkt-pos only (its contract); reference="begins" is excluded by the statement'],
     ),
     'C03': dict(level='translation_validation', functions=[], special_driver='pyvc/check_c03.py'),
+    'C18': dict(
+        level='proof',
+        functions=['fragments:FragmentsOfRegexps.insert', 'fragments:FragmentsOfRegexps.append', 'fragments:FragmentsOfRegexps.assemble_regexp',
+                   'C18#field:Int._pack_fixed_and_primitive_size', 'C18#field:Int._pack_fixed_size', 'C18#field:Data.pack',
+                   'field:Int.pack_regexp', 'field:Data.pack_regexp',
+                   'packet:Packet.as_regular_expression_impl', 'packet:Packet.as_regular_expression'],
+        lemmas=['C18.int_pieces', 'C18.data_pieces', 'C18.not_consumed_delimiter', 'C18.constrained_any'],
+        native_probe='probe_c18',
+        trusted_base=_COMMON_TRUST + [
+            'ASSUMED denotation of the piece shapes under (?s) (contracts/lemmas.py _rx_theory): re.escape(x) matches exactly x, ".{n}" exactly the strings of n bytes, '
+            '".*" everything, the language of a concatenation contains the concatenations; cross-checked against CPython re on every run (bounded)',
+            're.compile keeps the text it is given as .pattern; FragmentsOfRegexps.__init__ forwards to Fragments.__init__ and creates an empty piece map (role contract, *args forwarding)'],
+        assumptions=['BOUNDED stand-in (not proof): Bits.pack_regexp is string manipulation over "0", "1", "x" outside the VC generator - decided by exhaustive native evaluation over all 3^8 '
+                     'per-byte patterns x 256 bytes (eight one-bit fields) plus seeded multi-width runs',
+                     'BOUNDED: the composition - the regions consumed by the fields of a flat declaration concatenate to a prefix of the input and the assembled expression is the '
+                     'concatenation of the pieces (assemble_regexp fold, proved) so the prefix is in its language - is argued in DESIGN.md 4.C18, not mechanised; checked end to end by '
+                     'seeded random declarations, patterns and corpora (filter with == filter without pre-filter)',
+                     'flat declarations over Int, Data, Bits as in the statement: Sequence / Optional / Ref pack_regexp and positioned fields (holes) are not under contract',
+                     'Data sized by a callback: the piece is pinned only for constant and field sizes; regex delimiters not kept in the value are excluded by the statement'],
+    ),
     'C16': dict(
         level='proof',
         functions=['C16#codegen:CodeGenerator.generate_code'],
@@ -153,7 +175,10 @@ PROPERTIES = {
     'C07': dict(
         level='proof',
         functions=['field:Bits.unpack', 'field:Bits.pack', 'field:Bits.__init__', 'field:Bits._compile', 'field:Bits.init',
-                   'field:Int.__init__', 'field:Int._compile', 'ghost_clients:bits_compile_establishes_wf'],
+                   'field:Int.__init__', 'field:Int._compile', 'ghost_clients:bits_compile_establishes_wf',
+                   # the run's bytes are read and emitted through the shared Int: its four bodies carry the byte-level half of the statement
+                   'field:Int._unpack_fixed_and_primitive_size', 'field:Int._unpack_fixed_size',
+                   'field:Int._pack_fixed_and_primitive_size', 'field:Int._pack_fixed_size'],
         lemmas=['C07.unpack_slice', 'C07.pack_merge'],
         trusted_base=_COMMON_TRUST + ['mask-shaped facts A1-A3 about & | ~ on unbounded python ints and << >> as multiplication / floor division by 2^s (assumed, cross-checked against CPython, bounded)',
                                       'product law of 2**n'],
@@ -298,6 +323,16 @@ MANIFEST_TEXT = {
              '(fix: 9d79700 atomic write, a99f3c4 cookie re-check after reload, b35af89 tolerant bytecode removal); the native replays run on every check (bounded). '
              'Environment contracts are assumed (cross-checked natively); threads sharing one sys.modules are outside the statement.',
         technique='contract-based deductive verification of the real function tail with crash-point invariant obligations and rely/guarantee interference (VCs from the python ast, z3/cvc5) under assumed environment contracts; bounded native crash / interleaving replay as cross-check'),
+    'C18': dict(
+        text='Proof, piece by piece: (1) the real Int.pack_regexp / Data.pack_regexp bodies append exactly one piece per field - for a fixed value the escaped bytes their pack() emits '
+             '(the pack bodies are re-verified for a regexp buffer), for Any() ".{n}" (n the declared width, the constant size or the value of the size field), ".*" when the size is not known, '
+             '".*" + the escaped delimiter for delimited byte strings - and never fail for a placeholder; (2) FragmentsOfRegexps.insert/append keep one regexp text per stored chunk, '
+             'assemble_regexp is the left fold of the pieces in position order (loop invariant), as_regular_expression compiles "(?s)" + that fold over a buffer every table entry contributed to in order; '
+             '(3) lemmas: the region of the input a field consumes when it decodes to the pattern value (contracts C05/C06) is in the language of its piece.',
+        note='The denotation of the piece shapes is assumed (cross-checked against re, bounded). Bits.pack_regexp and the composition over all fields are bounded stand-ins: exhaustive per-byte evaluation '
+             '(3^8 patterns x 256 bytes) and seeded end-to-end filter() comparisons run on every check and give concrete failing inputs. Findings: one defect fixed in /repo (14eb703, Any-sized data broke '
+             'anything_like), two recorded: K18a (consume_delimiter=False: the delimiter is matched twice) and K18b (constrained Any placeholders compare by unanchored search).',
+        technique='contract-based deductive verification of the real pack_regexp / buffer bodies (VCs from the python ast, z3/cvc5) + pure lemmas over an assumed regex denotation; bounded native stand-ins for Bits.pack_regexp and the end-to-end composition'),
     'C13': dict(
         text='Proof of the frame (modifies) clause and the freshness clauses of every pack / unpack / init function under contract: each writes only slots of its own packet argument, freshly allocated objects '
              'and (pack) the fragments argument; shared field objects are not written after compilation; objects stored into slots are fresh or immutable or supplied by the caller; pack leaves every field value unchanged. '
@@ -381,10 +416,6 @@ MANIFEST_TEXT = {
 }
 
 NOT_APPLICABLE = {
-    'C18': 'the property is a statement about the language of regular-expression TEXT assembled by string operations (bin(), str.replace, int(s, 2), '
-           're.escape, %-formatting, b"".join) and interpreted by the re engine; Bits.pack_regexp and FragmentsOfRegexps are outside the python subset of the '
-           'VC generator, and a contract could only state the property relative to an assumed denotational semantics of pattern text, which would carry the '
-           'property itself. Not claimed in this round (DESIGN.md 6).',
 }
 for _i in ['C%02d' % k for k in range(1, 21)]:
     NOT_APPLICABLE.setdefault(_i, 'not brought under contract in this round; no claim is made')
